@@ -19,10 +19,22 @@ def bytes_id(kind): return ('S%d' % K.SECRET_KINDS[kind][1]) if kind in K.SECRET
 
 class Tok:
     """one executor + initialised token + two sessions (objects live in s, operations run in so)"""
-    def __init__(s, paths, ck, d, extra):
-        conf = mkconf(d, 'file', extra)
+    def __init__(s, paths, ck, d, extra, warm=False):
+        conf = mkconf(d, 'file', '' if warm else extra)
         s.x = Exec(paths['exe'], paths['lib'], conf, ck, env=dict(SAN_ENV), stderr=f'{d}/stderr.log', trace=f'{d}/trace.jsonl'); s.ck = ck
-        s.slot, s.s = K.setup_token(s.x); s.so = s.x.call('C_OpenSession', slot=s.slot)['h']
+        s.slot, s.s = K.setup_token(s.x); s.so = s.x.call('C_OpenSession', slot=s.slot)['h']; s.reopened = 0
+        if warm:
+            # the configuration is read by C_Initialize: this process first works WITHOUT a restriction (keyed operations, a digest, a key generation), is finalised, finds a
+            # restricted softhsm2.conf and is initialised again -- from then on the restricted list is the one in force, exactly as in a process that started with it
+            x = s.x; k = s.mk('AES16'); g = s.mk('GEN16'); assert k and g
+            for fn, m, key in (('C_EncryptInit', x.M('CKM_AES_ECB'), k), ('C_SignInit', x.M('CKM_SHA256_HMAC'), g), ('C_DecryptInit', x.M('CKM_AES_CBC', hex='00' * 16), k), ('C_VerifyInit', x.M('CKM_AES_CMAC'), k)):
+                x.call(fn, s=s.so, mech=m, key=key); s.reopen()
+            x.call('C_WrapKey', s=s.so, mech=x.M('CKM_AES_KEY_WRAP'), wkey=k, key=g, buf=256); x.call('C_DigestInit', s=s.so, mech=x.M('CKM_SHA256')); s.reopen()
+            x.call('C_GenerateKey', s=s.so, mech=x.M('CKM_AES_KEY_GEN'), tmpl=x.T({'CKA_VALUE_LEN': 16, 'CKA_TOKEN': False}))
+            x.call('C_DeriveKey', s=s.so, mech=x.M('CKM_AES_ECB_ENCRYPT_DATA', kdstr='11' * 16), key=k, tmpl=x.T({'CKA_CLASS': ck.CKO_SECRET_KEY, 'CKA_KEY_TYPE': ck.CKK_AES, 'CKA_VALUE_LEN': 16, 'CKA_TOKEN': False}))
+            assert x.call('C_Finalize')['rv'] == 0; mkconf(d, 'file', extra); assert x.call('C_Initialize', locking='os')['rv'] == 0
+            s.slot = [sl for sl in x.call('C_GetSlotList', count=16)['slots'] if x.call('C_GetTokenInfo', slot=sl)['flags'] & ck.CKF_TOKEN_INITIALIZED][0]
+            s.s = x.call('C_OpenSession', slot=s.slot)['h']; assert x.call('C_Login', s=s.s, user=1, pin=K.USER_PIN.hex())['rv'] == 0; s.so = x.call('C_OpenSession', slot=s.slot)['h']
         r = s.x.call('C_GetMechanismList', slot=s.slot, count=400); assert r['rv'] == 0, r
         s.adv = {ck.MECH.get(m, hex(m)) for m in r['mechs']}
         s.target = s.mk('AES16', value=TARGET_VALUE); s.other = s.mk('GEN16', value=K.SYM_B[16]); s.reopened = 0
@@ -102,7 +114,8 @@ def worker(job):
     ck = CK(job['hdr']); part = Part(); d = os.path.join(job['scratch'], job['name']); shutil.rmtree(d, ignore_errors=True); os.makedirs(d)
     t = None
     try:
-        t = Tok(job['paths'], ck, d, MT.conf_line(job['ckind'], job['cnames']))
+        t = Tok(job['paths'], ck, d, MT.conf_line(job['ckind'], job['cnames']), warm=job.get('warm', False))
+        if job.get('warm'): part.count('jobs_reconfigured_between_two_initialisations')
         if job['what'] == 'keyless': keyless(t, job, part)
         elif job['what'] == 'auth': always_auth(t, job, part)
         else: table(t, job, part)
@@ -317,8 +330,9 @@ def run(ctx):
         for conf, ckind, names, full in confs:
             assert len(MT.conf_line(ckind, names)) < 1000
             base = dict(paths=p, hdr=p['hdr'], scratch=ctx.scratch, conf=f'{b}:{conf}', ckind=ckind, clabel=conf, cnames=names, uni=uni, art=art, live=live, all_adv=set(adv), expected=sorted(MT.expected_list(adv, ckind, names)))
-            for kind in (K.ALL_KINDS if full else SUBSET): jobs.append(dict(base, what='table', kind=kind, name=f'{b}-{conf}-{kind}'))
+            for ki, kind in enumerate(K.ALL_KINDS if full else SUBSET): jobs.append(dict(base, what='table', kind=kind, name=f'{b}-{conf}-{kind}', warm=(ckind != 'ALL' and ki % 2 == 0)))
             jobs.append(dict(base, what='keyless', name=f'{b}-{conf}-keyless'))
+            if ckind != 'ALL': jobs.append(dict(base, what='keyless', name=f'{b}-{conf}-keyless-reconfigured', warm=True))
         jobs.append(dict(paths=p, hdr=p['hdr'], scratch=ctx.scratch, conf=f'{b}:ALL', ckind='ALL', cnames=[], art=art, what='auth', name=f'{b}-auth'))
         for part in pmap(worker, jobs, ctx.nproc): ctx.merge(part)
     # another PROCESS clears a usage flag of a token key this process has already used (both object-store back-ends): the very next operation must be refused here too
@@ -327,6 +341,7 @@ def run(ctx):
     ctx.extra['exhaustive'] = exhaustive
     ctx.assumptions += ['"fits" is family level only (vlib/mechtable.py); a refusal is never a violation (the statement is "starts only if"); refused positive controls are observations',
                         'single DES is excluded from positive controls (system OpenSSL 3 without the legacy provider)',
+                        'half of the table jobs of every restricted configuration run in a process that first worked under an unrestricted configuration (keyed operations, digest, key generation), was finalised, and was initialised again after softhsm2.conf had been replaced',
                         'slots.mechanisms lists are limited to ~850 characters because SimpleConfigLoader reads lines of at most 1023 bytes',
                         'the expected advertised list of a configuration is computed from the configuration TEXT and the list read under ALL (unknown names are ignored, softhsm2.conf(5)); an advertised list that differs from it in EITHER direction is reported (removed-but-advertised fails open; kept-but-missing means the list is not the one slots.mechanisms describes)',
                         'quick: the four unknown-name configurations run the key-less entry points, the list comparison and the table for 11 of the 27 key kinds; exhaustive: true refers to the ALL / negative / positive configurations',
